@@ -2,7 +2,7 @@ use std::cmp::max;
 use inkayaku_board::constants::ZobristHash;
 
 pub struct ZobristHistory {
-    history: [ZobristHash; 5000],
+    history: Vec<ZobristHash>,
 }
 
 impl ZobristHistory {
@@ -40,7 +40,7 @@ impl ZobristHistory {
 
 impl Default for ZobristHistory {
     fn default() -> Self {
-        Self { history: [0; 5000] }
+        Self { history: vec![0; u16::MAX as usize + 1] }
     }
 }
 
